@@ -187,6 +187,3 @@ Proof. reflexivity. Qed.
 Example inherited_nonblocking_kills_the_service :
   accept_round true (effective_mode false FNonBlocking) 0 false = AWouldBlock.
 Proof. reflexivity. Qed.
-
-Lemma src_listen_forces_blocking : listen_forces_blocking = true /\ accept_selects_only_with_timeout = true.
-Proof. vm_compute. split; reflexivity. Qed.
